@@ -97,6 +97,11 @@ pub const MENU: &[(&str, &str, &str)] = &[
     ("hftx_this_v", "(this value) (arg value)", "sum"),
     // the receiver is not the first parameter
     ("hv_this", "(arg value) (this value)", "(arg 1)"),
+    // the all-arguments extractor next to others: it yields every argument wherever it stands
+    ("hv_args", "(arg value) args", "(arg 1)"),
+    ("hthis_args", "(this value) args", "(arg 1)"),
+    ("hargs_v", "args (arg value)", "(arg 1)"),
+    ("hi_s_args", "(arg int) (arg str) args", "(arg 2)"),
     ("hi_this_i", "(arg int) (this int)", "(arg 1)"),
     ("hv_v_this", "(arg value) (arg value) (this value)", "(arg 2)"),
 ];
@@ -355,6 +360,22 @@ pub fn register(ctx: &mut Context, f: &HostFn) {
         "hv_v_this" => ctx.add_function(name, move |a: Value, b: Value, This(t): This<Value>| -> R {
             logcall(&n, &[a, b, t.clone()]);
             Ok(t)
+        }),
+        "hv_args" => ctx.add_function(name, move |a: Value, Arguments(all): Arguments| -> R {
+            logcall(&n, &[a, Value::List(all.clone())]);
+            Ok(Value::List(all))
+        }),
+        "hthis_args" => ctx.add_function(name, move |This(t): This<Value>, Arguments(all): Arguments| -> R {
+            logcall(&n, &[t, Value::List(all.clone())]);
+            Ok(Value::List(all))
+        }),
+        "hargs_v" => ctx.add_function(name, move |Arguments(all): Arguments, a: Value| -> R {
+            logcall(&n, &[Value::List(all), a.clone()]);
+            Ok(a)
+        }),
+        "hi_s_args" => ctx.add_function(name, move |a: i64, b: Arc<String>, Arguments(all): Arguments| -> R {
+            logcall(&n, &[Value::Int(a), Value::String(b), Value::List(all.clone())]);
+            Ok(Value::List(all))
         }),
         k => panic!("unknown menu kind {}", k),
     }
